@@ -573,6 +573,16 @@ def main(tier, replay=None):
             behs = maximal(gen.payloads("BEH"))
         rep.coverage["behaviours_emitted_by_tlc"] = len(gen.payloads("BEH"))
         rep.coverage["maximal_behaviours_replayed"] = len(behs)
+        if tier != "quick":
+            # unbounded companion: Apalache / Z3 prove balance, energy conservation and free flight of one trapezoidal step for
+            # ALL integer data (amplitudes, stiffness, step size); Newmark.tla's invariant ClosedFormTrap links the closed form
+            # used there to the predict / minimise / correct actions on TLC's lattice.  Failure = machinery error.
+            import subprocess
+            r = subprocess.run([common.SPECS + "/apalache/run_generic.sh", "NewmarkAll.tla", "All", "NegControl"],
+                               capture_output=True, text=True)
+            rep.coverage["apalache"] = [l for l in r.stdout.splitlines() if l.startswith("APALACHE")]
+            if r.returncode != 0:
+                rep.machinery("apalache check of NewmarkAll.tla failed: %s" % r.stdout[-400:])
         models = plan_models(tier, rng)
         modal_pars = [PARS["trap"], PARS["damped"], PARS["half"]]
         plan = []
